@@ -269,10 +269,10 @@ theorem get_set {m : CMap} {x y : String} {v w : Val} (h : CMap.get (CMap.set m 
 
 theorem cp_assign_sound {arrs : List String} {Γ : String → Option Ty} {m m' : CMap} {st st' : St} {l r : Ex} {s' : Stmt}
     (hi : Inv arrs Γ st) (hm : Holds m st) (hok : cpOKS arrs Γ (.assign l r) m = true)
-    (hc : cpAssign arrs false m l r = some (s', m')) (h : assignStmt st l r = some st') :
+    (hc : cpAssign arrs m l r = some (s', m')) (h : assignStmt st l r = some st') :
     ∃ l' r', s' = .assign l' r' ∧ assignStmt st l' r' = some st' ∧ Inv arrs Γ st' ∧ Holds m' st' := by
   have ha := hi.noAlias
-  simp only [cpAssign, Bool.false_and, Bool.false_eq_true, if_false] at hc
+  simp only [cpAssign] at hc
   cases hr : cpE m r with
   | none => simp [hr] at hc
   | some r' =>
@@ -384,10 +384,10 @@ theorem inv_out {arrs : List String} {Γ : String → Option Ty} {st : St} (hi :
   ⟨hi.noAlias, fun x c hx hl => hi.scal x c hx (by simpa [lookupCell] using hl)⟩
 
 structure CpSim (arrs : List String) (Γ : String → Option Ty) (P : Program) (f : Nat) : Prop where
-  stmts : ∀ ss ss' m m' st st' sig, cpOK arrs Γ ss m = true → cpStmts arrs false ss m = some (ss', m') →
+  stmts : ∀ ss ss' m m' st st' sig, cpOK arrs Γ ss m = true → cpStmts arrs ss m = some (ss', m') →
       Inv arrs Γ st → Holds m st → execStmts P f ss st = .ok st' sig →
       execStmts P f ss' st = .ok st' sig ∧ Inv arrs Γ st' ∧ Holds m' st' ∧ sig = .normal
-  stmt : ∀ s s' m m' st st' sig, cpOKS arrs Γ s m = true → cpStmt arrs false s m = some (s', m') →
+  stmt : ∀ s s' m m' st st' sig, cpOKS arrs Γ s m = true → cpStmt arrs s m = some (s', m') →
       Inv arrs Γ st → Holds m st → execStmt P f s st = .ok st' sig →
       execStmt P f s' st = .ok st' sig ∧ Inv arrs Γ st' ∧ Holds m' st' ∧ sig = .normal
 
@@ -413,12 +413,12 @@ theorem cpSim_succ {arrs : List String} {Γ : String → Option Ty} {P : Program
       simp only [cpOK, Bool.and_eq_true] at hok
       obtain ⟨hoks, hokr⟩ := hok
       simp only [cpStmts] at hc
-      cases hs : cpStmt arrs false s m with
+      cases hs : cpStmt arrs s m with
       | none => simp [hs] at hc
       | some p1 =>
         obtain ⟨s', m1⟩ := p1
         simp only [hs] at hokr
-        cases hr : cpStmts arrs false rest m1 with
+        cases hr : cpStmts arrs rest m1 with
         | none => simp [hs, hr] at hc
         | some p2 =>
           obtain ⟨r', m2⟩ := p2
@@ -480,11 +480,11 @@ theorem cpSim_succ {arrs : List String} {Γ : String → Option Ty} {P : Program
       cases hcc : cpE m c with
       | none => simp [hcc] at hc
       | some c' =>
-        cases hct : cpStmts arrs false t m with
+        cases hct : cpStmts arrs t m with
         | none => simp [hcc, hct] at hc
         | some pt =>
           obtain ⟨t', mt⟩ := pt
-          cases hce : cpStmts arrs false e m with
+          cases hce : cpStmts arrs e m with
           | none => simp [hcc, hct, hce] at hc
           | some pe =>
             obtain ⟨e', me⟩ := pe
